@@ -122,7 +122,7 @@ impl Memory {
     pub fn set32(&mut self, address: u64, value: u32) -> Result<(), Error> {
         let (section_address, offset) = self
             .section_address_offset(address)
-            .unwrap_or_else(|| panic!("Address 0x{:x} has no section", address));
+            .ok_or_else(|| Error::Custom(format!("Address 0x{:x} has no section", address)))?;
 
         let section = self.sections.get_mut(&section_address).unwrap();
 
